@@ -85,12 +85,23 @@ type FuncSpec struct {
 	Trusted    bool           // stub / assumed
 	Ghosts     []Param        // ghost parameters (existentially supplied by use sites as fresh symbols)
 	Asserts    []CallAssert
+	Binds      []CallBind
+	Implements string // interface contract this method must satisfy
+	AfterLoop  []CallAssert // "after loop N: assert e" (Ordinal = loop ordinal)
 	Fresh      []string // names of results that are freshly allocated
 	NoSafety   bool
 	Params     []Param // for stubs/interfaces: parameter names
 	Results    []Param
 	File       string
 	Line       int
+}
+
+// CallBind supplies a ghost argument of a callee at one call site: "bind callee#k name = expr".
+type CallBind struct {
+	Callee  string
+	Ordinal int
+	Name    string
+	Expr    ast.Expr
 }
 
 type CallAssert struct {
@@ -296,7 +307,7 @@ func parseFnHeader(s string) (name string, params []Param, ret string, body stri
 }
 
 var clauseKeywords = []string{"requires", "ensures", "modifies", "loop", "use", "pure", "inline", "allow-panic",
-	"check-overflow", "ghost", "trusted", "before", "fresh", "no-safety", "params", "results", "induction", "axiom"}
+	"check-overflow", "ghost", "bind", "implements", "after", "trusted", "before", "fresh", "no-safety", "params", "results", "induction", "axiom"}
 
 func startsWithKeyword(s string) (string, string, bool) {
 	for _, k := range clauseKeywords {
@@ -456,6 +467,7 @@ func (sf *SpecFile) addItem(it *rawItem, pkg string) error {
 		if err != nil {
 			return err
 		}
+		c.Name = pkg
 		sf.Globals = append(sf.Globals, c)
 		return nil
 	case "lemma":
@@ -540,6 +552,8 @@ func (sf *SpecFile) addItem(it *rawItem, pkg string) error {
 					fs.Modifies = append(fs.Modifies, e)
 					fs.ModSrc = append(fs.ModSrc, m)
 				}
+			case "implements":
+				fs.Implements = strings.TrimSpace(l.text)
 			case "pure":
 				fs.Pure = true
 			case "inline":
@@ -639,6 +653,28 @@ func (sf *SpecFile) addItem(it *rawItem, pkg string) error {
 				default:
 					return fmt.Errorf("bad loop clause kind %q", f[1])
 				}
+			case "bind":
+				m := regexp.MustCompile(`^(\S+?)#(\d+)\s+(\w+)\s*=\s*(.*)$`).FindStringSubmatch(l.text)
+				if m == nil {
+					return fmt.Errorf("bad bind clause %q", l.text)
+				}
+				n, _ := strconv.Atoi(m[2])
+				e, err := parseSpecExpr(m[4])
+				if err != nil {
+					return err
+				}
+				fs.Binds = append(fs.Binds, CallBind{Callee: m[1], Ordinal: n, Name: m[3], Expr: e})
+			case "after":
+				m := regexp.MustCompile(`^loop\s+(\d+)\s*:\s*assert\s+(.*)$`).FindStringSubmatch(l.text)
+				if m == nil {
+					return fmt.Errorf("bad after clause %q", l.text)
+				}
+				n, _ := strconv.Atoi(m[1])
+				c, err := parseClause(m[2], l.line)
+				if err != nil {
+					return err
+				}
+				fs.AfterLoop = append(fs.AfterLoop, CallAssert{Ordinal: n, Expr: c.Expr, Src: c.Src, Tags: c.Tags})
 			case "before":
 				// before call <callee>#<k>: assert <expr>
 				m := regexp.MustCompile(`^call\s+(\S+?)#(\d+)\s*:\s*assert\s+(.*)$`).FindStringSubmatch(l.text)
